@@ -6,6 +6,7 @@ from . import refsym as R
 
 
 P_INTEGER = 0.04
+SHARED_SEEN = [0]  # how often one ndarray object was stored under several sectors
 
 
 def _lowrank(npr, shape, dtype, rank):
@@ -24,7 +25,7 @@ def structured_blocks(rng, npr, x, dtype):
     special-case): symmetric, complex symmetric (NOT hermitian), hermitian, diagonal, diagonal
     of phases, triangular, orthogonal / unitary, constant. -> name of the structure or None"""
     cplx = np.dtype(dtype).kind == "c"
-    st = rng.choice(["symmetric", "symmetric", "hermitian", "diagonal", "phases", "triangular", "unitary", "constant", "antisymmetric", "integer-diagonal", "integer-diagonal", "same-block-in-every-sector", "near-tie-diagonal", "null-rows-or-columns", "null-rows-or-columns"])
+    st = rng.choice(["symmetric", "symmetric", "hermitian", "diagonal", "phases", "triangular", "unitary", "constant", "antisymmetric", "integer-diagonal", "integer-diagonal", "same-block-in-every-sector", "same-block-in-every-sector", "same-block-in-every-sector", "near-tie-diagonal", "null-rows-or-columns", "null-rows-or-columns"])
     if st == "same-block-in-every-sector":
         # bit-identical singular values in different charge sectors
         shapes = {}
@@ -33,8 +34,13 @@ def structured_blocks(rng, npr, x, dtype):
         done = False
         for shp, secs in shapes.items():
             if len(secs) >= 2:
+                # equal copies, or (half the time) the very same ndarray OBJECT under several
+                # sectors, as in blocks={(0, 0): a, (1, 1): a}
+                share = rng.random() < 0.5
                 for s_ in secs[1:]:
-                    x.blocks[s_] = np.array(x.blocks[secs[0]])
+                    x.blocks[s_] = x.blocks[secs[0]] if share else np.array(x.blocks[secs[0]])
+                if share:
+                    SHARED_SEEN[0] += 1
                 done = True
         return st if done else None
     done = False
